@@ -66,6 +66,10 @@ def _draw_layout(rng, *, max_features=12, min_samples=14, max_samples=30, allow_
     d["scale"] = rng.choice([1.0, 1.0, 10.0, 0.1])
     d["offset"] = rng.choice([0.0, 1.0, 5.0])
     d["order"] = rng.choice(["sf", "sf", "fs", "mixed"])
+    if container == "list":
+        # xeofs fails (in memory and lazily alike) when the items of a list hold the sample dimension at
+        # different positions; that is C02/C07 territory, so lists keep the sample dims in front
+        d["order"] = "sf"
     if complex_:
         d["complex"] = True
     if allow_mi and rng.random() < 0.15:
@@ -84,7 +88,7 @@ def _draw_layout(rng, *, max_features=12, min_samples=14, max_samples=30, allow_
             d["coord_attrs"] = rng.randrange(len(gen.ATTR_CATALOGUE))
         if container == "ds" and rng.random() < 0.4:
             d["ds_attrs"] = rng.randrange(len(gen.ATTR_CATALOGUE))
-    if rng.random() < 0.15:
+    if rng.random() < 0.15 and container == "da":
         d["extra_coord"] = True
     if rng.random() < 0.15 and not two_s:
         d["perm_seed"] = rng.randrange(1, 1000)
